@@ -34,6 +34,7 @@ func init() {
 	vh.Register("c07", "replay-lines", replayLines)
 	vh.Register("c07", "record-lines", recordLines)
 	vh.Register("c07", "replay-one", replayOne)
+	vh.Register("c07", "race-lines", raceLines)
 }
 
 // ------------------------------------------------------------------ tables
@@ -182,6 +183,18 @@ func GetTables() (*Tables, error) {
 		bad := func(tok, s, why string) {
 			if tablesErr == nil {
 				tablesErr = fmt.Errorf("table %s entry %q: %s", tok, s, why)
+			}
+		}
+		// Names with bytes that are not valid UTF-8: the reference decides; a
+		// record must carry exactly these bytes.
+		for _, name := range []string{"a\xffb.example", "\xc3\x28.example", "host\xed\xa0\x80.example", "\xfe\xfe.com", "latin\xe9.example", "a.b\xff"} {
+			if _, aerr := refAddr(name); aerr == nil {
+				continue
+			}
+			if refName(name) == nil {
+				m["Nidn"] = append(m["Nidn"], name)
+			} else {
+				m["Nbad"] = append(m["Nbad"], name)
 			}
 		}
 		// Long IDN names: classified by the reference; idna.ToASCII is used
@@ -423,6 +436,7 @@ func Concretise(rng *rand.Rand, toks []string, mode int) (*Concrete, error) {
 	for try := 0; try < 200; try++ {
 		c := &Concrete{Parts: make([]string, len(toks))}
 		afterHash := false
+		lastName := ""
 		for i, t := range toks {
 			var s string
 			switch {
@@ -445,6 +459,14 @@ func Concretise(rng *rand.Rand, toks []string, mode int) (*Concrete, error) {
 					k = 0
 				}
 				s = list[k]
+				// two neighbouring names are distinct when the table allows
+				// it, so that a name shifted by one position is visible
+				if (t == "N" || t == "Nidn" || t == "Nbad") && s == lastName && len(list) > 1 && try <= 100 {
+					s = list[(k+1+rng.IntN(len(list)-1))%len(list)]
+				}
+				if t == "N" || t == "Nidn" || t == "Nbad" {
+					lastName = s
+				}
 			}
 			if t == "HASH" {
 				afterHash = true
@@ -546,6 +568,74 @@ func KindOf(err error) string {
 	}
 }
 
+// Arena is the caller's memory around one input (HostsLineMem.tla): the line
+// sits between guard bytes and spare capacity inside a larger buffer, as a
+// line of a file image or of a scanner buffer does; data is handed out as a
+// sub-slice whose capacity reaches into the spare part.
+type Arena struct {
+	buf, pristine []byte
+	off, n        int
+}
+
+const arenaGuard, arenaSpare = 8, 24
+
+// NewArena places line in a fresh arena.
+func NewArena(line []byte) *Arena {
+	a := &Arena{off: arenaGuard, n: len(line)}
+	a.buf = make([]byte, 0, arenaGuard+len(line)+arenaSpare)
+	a.buf = append(a.buf, bytes.Repeat([]byte{0xA5}, arenaGuard)...)
+	a.buf = append(a.buf, line...)
+	a.buf = append(a.buf, bytes.Repeat([]byte{0x5A}, arenaSpare)...)
+	a.pristine = bytes.Clone(a.buf)
+	return a
+}
+
+// Data is the input slice: len = the line, cap reaches to the end of the arena.
+func (a *Arena) Data() []byte { return a.buf[a.off : a.off+a.n] }
+
+// Check reports a write to the caller's memory.
+func (a *Arena) Check() string {
+	if bytes.Equal(a.buf, a.pristine) {
+		return ""
+	}
+	was, now := a.pristine[a.off:a.off+a.n], a.buf[a.off:a.off+a.n]
+	if !bytes.Equal(was, now) {
+		return fmt.Sprintf("UnmarshalText wrote to its input: %s became %s", strconv.QuoteToASCII(string(was)), strconv.QuoteToASCII(string(now)))
+	}
+	return fmt.Sprintf("UnmarshalText wrote outside its input (guard bytes / spare capacity of data changed) for %s", strconv.QuoteToASCII(string(was)))
+}
+
+// UnmarshalInArena runs rec.UnmarshalText on line placed in an arena, checks
+// that the caller's memory is untouched, parses the very same buffer a second
+// time into a fresh record (same outcome required), and finally overwrites
+// the input (the text must have been copied: encoding.TextUnmarshaler).
+func UnmarshalInArena(rec *hostsfile.Record, line []byte) (uerr error, what string) {
+	a := NewArena(line)
+	if pv, p := vh.Try(func() { uerr = rec.UnmarshalText(a.Data()) }); p {
+		return nil, fmt.Sprintf("UnmarshalText panicked: %v", pv)
+	}
+	if what = a.Check(); what != "" {
+		return uerr, what
+	}
+	again := &hostsfile.Record{}
+	var aerr error
+	if pv, p := vh.Try(func() { aerr = again.UnmarshalText(a.Data()) }); p {
+		return uerr, fmt.Sprintf("second UnmarshalText of the same buffer panicked: %v", pv)
+	}
+	switch k := KindOf(uerr); {
+	case KindOf(aerr) != k || (uerr != nil && aerr.Error() != uerr.Error()):
+		what = fmt.Sprintf("parsing the same buffer twice: first %v, then %v", uerr, aerr)
+	case (k == "Accept" || k == "NameErr") && (again.Addr != rec.Addr || !slices.Equal(again.Names, rec.Names)):
+		what = fmt.Sprintf("parsing the same buffer twice: first {%v %q}, then {%v %q}", rec.Addr, rec.Names, again.Addr, again.Names)
+	default:
+		what = a.Check()
+	}
+	for i, d := 0, a.Data(); i < len(d); i++ {
+		d[i] = 'Z'
+	}
+	return uerr, what
+}
+
 // CheckLine runs UnmarshalText on line and compares with e.  It returns ""
 // or a description of the first disagreement.  The specification's contract
 // violations (the reference disagreeing with the expectation) come back as
@@ -556,14 +646,9 @@ func CheckLine(line []byte, e Expect, dirty bool) (what string, err error) {
 		rec.Addr = netip.MustParseAddr("9.9.9.9")
 		rec.Names = []string{"stale.example", "stale2.example"}
 	}
-	data := bytes.Clone(line)
-	var uerr error
-	if pv, p := vh.Try(func() { uerr = rec.UnmarshalText(data) }); p {
-		return fmt.Sprintf("UnmarshalText panicked: %v", pv), nil
-	}
-	// The text must have been copied (encoding.TextUnmarshaler).
-	for i := range data {
-		data[i] = 'Z'
+	uerr, what := UnmarshalInArena(rec, line)
+	if what != "" {
+		return what, nil
 	}
 	if what, err = CheckErr(uerr, e); what != "" || err != nil {
 		return what, err
@@ -855,6 +940,103 @@ func replayLines(args []string) error {
 	return res.Close(sum)
 }
 
+// raceLines is the concurrent counterpart of HostsLineMem.tla: several
+// goroutines unmarshal ONE shared input slice at the same time (a line that is
+// read-only for all of them).  Built with -race: a write to the shared input
+// is reported by the race detector; independently every result is compared
+// with the specification's prediction and the arena is checked afterwards.
+func raceLines(args []string) error {
+	if len(args) != 3 {
+		return fmt.Errorf("usage: race-lines <vectors> <result> <max-lines>")
+	}
+	maxLines, err := strconv.Atoi(args[2])
+	if err != nil {
+		return err
+	}
+	if _, err := GetTables(); err != nil {
+		return err
+	}
+	res, err := vh.NewResult(args[1])
+	if err != nil {
+		return err
+	}
+	const goroutines, rounds = 4, 2
+	// Vectors are sampled by hash; lines with at least two names first (a
+	// library that rewrites its input does so between the names).
+	var picked [][]byte
+	total := 0
+	err = vh.ForEachVector(args[0], func(_ int, raw []byte) error {
+		total++
+		if h := Hash64(raw); h%7 == vh.Seed()%7 && len(picked) < maxLines && bytes.Count(raw, []byte("],[")) >= 2 {
+			picked = append(picked, bytes.Clone(raw))
+		}
+		return nil
+	})
+	if err != nil {
+		return err
+	}
+	calls := 0
+	for _, raw := range picked {
+		var v lineVec
+		if err := json.Unmarshal(raw, &v); err != nil {
+			return err
+		}
+		c, err := Concretise(RandFor(raw, 1), v.L, int(Hash64(raw)>>3)%nConcretisations)
+		if err != nil {
+			return err
+		}
+		e, err := MakeExpect(v.Outcome, c)
+		if err != nil {
+			return err
+		}
+		a := NewArena(c.Line)
+		shared := a.Data()
+		var wg sync.WaitGroup
+		whats := make([]string, goroutines)
+		herrs := make([]error, goroutines)
+		start := make(chan struct{})
+		for g := 0; g < goroutines; g++ {
+			wg.Add(1)
+			go func(g int) {
+				defer wg.Done()
+				<-start
+				for r := 0; r < rounds; r++ {
+					rec := &hostsfile.Record{}
+					var uerr error
+					if pv, p := vh.Try(func() { uerr = rec.UnmarshalText(shared) }); p {
+						whats[g] = fmt.Sprintf("UnmarshalText panicked: %v", pv)
+						return
+					}
+					w, herr := CheckErr(uerr, e)
+					if w == "" && herr == nil {
+						w, herr = CheckRec(rec, e, true)
+					}
+					if w != "" || herr != nil {
+						whats[g], herrs[g] = w, herr
+						return
+					}
+				}
+			}(g)
+		}
+		close(start)
+		wg.Wait()
+		calls += goroutines * rounds
+		key := "goroutines sharing the input of " + keyOf(c.Line)
+		for g := range whats {
+			if herrs[g] != nil {
+				return fmt.Errorf("line %q: %w", c.Line, herrs[g])
+			}
+			if whats[g] != "" {
+				res.Mismatch(key, whats[g], map[string]any{"tokens": v.L, "spec": v.Outcome, "line": string(c.Line)})
+			}
+		}
+		if w := a.Check(); w != "" {
+			res.Mismatch(key, w, map[string]any{"tokens": v.L, "line": string(c.Line)})
+		}
+	}
+	return res.Close(map[string]any{"shared_lines": len(picked), "race_calls": calls, "vectors_seen": total})
+}
+
 // replayOne re-executes one concrete line (for --replay): prints what the
 // abstraction, the reference functions and the code say.
 func replayOne(args []string) error {
@@ -964,10 +1146,23 @@ func RandomLine(rng *rand.Rand, tb *Tables, maxFields int) []byte {
 		nf = 1
 	default:
 		nf = 2 + rng.IntN(maxFields)
+		if rng.IntN(25) == 0 {
+			// many names: around the sizes of small fixed buffers and beyond
+			nf = 1 + []int{6, 7, 8, 9, 10, 11, 15, 16, 17, 18, 31, 32, 33, 34, 64, 65, 66, 100}[rng.IntN(18)]
+		}
 	}
 	for k := 0; k < nf; k++ {
 		if k > 0 {
 			sep()
+		}
+		if nf > 7 && rng.IntN(40) > 0 {
+			// long lines are mostly well-formed, so that many names are delivered
+			if k == 0 {
+				b = append(b, pick("A4", "A6", "A6z")...)
+			} else {
+				b = append(b, pick("N", "N", "Nidn")...)
+			}
+			continue
 		}
 		b = append(b, field(k == 0)...)
 		if rng.IntN(40) == 0 {
@@ -1006,21 +1201,25 @@ type LineObs struct {
 	AddrOK  bool   `json:"addr_ok"`
 	ErrOK   bool   `json:"err_ok"`
 	RoundOK bool   `json:"round_ok"`
+	InputOK bool   `json:"input_ok"` // the caller's memory around the input is untouched
+	AgainOK bool   `json:"again_ok"` // a second parse of the same buffer agrees
 	Note    string `json:"note"`
 }
 
 func ObserveLine(line []byte, a Abstracted) (o LineObs) {
 	rec := &hostsfile.Record{}
-	data := bytes.Clone(line)
-	var uerr error
-	if pv, p := vh.Try(func() { uerr = rec.UnmarshalText(data) }); p {
-		return LineObs{Kind: "Panic", Note: fmt.Sprint(pv)}
-	}
-	for i := range data {
-		data[i] = 'Z'
+	uerr, memWhat := UnmarshalInArena(rec, line)
+	if strings.Contains(memWhat, "panicked") {
+		return LineObs{Kind: "Panic", Note: memWhat}
 	}
 	o.Kind = KindOf(uerr)
-	o.AddrOK, o.ErrOK, o.RoundOK = true, true, true
+	o.AddrOK, o.ErrOK, o.RoundOK, o.InputOK, o.AgainOK = true, true, true, true, true
+	switch {
+	case strings.HasPrefix(memWhat, "parsing the same buffer twice"):
+		o.AgainOK, o.Note = false, memWhat
+	case memWhat != "":
+		o.InputOK, o.Note = false, memWhat
+	}
 	switch o.Kind {
 	case "Empty", "NoHosts":
 		return o
@@ -1092,7 +1291,7 @@ func recordLines(args []string) error {
 	for i := 0; i < nl; i++ {
 		line := RandomLine(rng, tb, 5)
 		a := Abstract(line)
-		if len(a.Tokens) > 40 {
+		if len(a.Tokens) > 400 {
 			continue
 		}
 		o := ObserveLine(line, a)
